@@ -224,6 +224,9 @@ func (l *List) LRem(key string, count int, value []byte) (int, error) {
 	}
 
 	if count < 0 {
+		if count < -size {
+			count = -size // also keeps -count from overflowing
+		}
 		count = -count
 		for i := size - 1; i >= 0; i-- {
 			v := tempVal[i]
@@ -262,6 +265,9 @@ func (l *List) LRemNum(key string, count int, value []byte) (int, error) {
 	tempVal := l.Items[key]
 
 	if count < 0 {
+		if count < -size {
+			count = -size // also keeps -count from overflowing
+		}
 		count = -count
 	}
 
